@@ -104,13 +104,29 @@ func genJs(r *rand.Rand, n int, tier string) []Case {
 		var js string
 		switch k := (i + r.Intn(3)) % 9; k {
 		case 0:
-			js = `throw "boom"`
-			sem[js] = map[string]interface{}{"t": "throw"}
+			switch r.Intn(3) {
+			case 0:
+				js = `throw "boom"`
+				sem[js] = map[string]interface{}{"t": "throw"}
+			case 1:
+				// the result owns a getter: exporting the result runs JavaScript again (still under the limit)
+				js = `({get a() { return "x" }, b: 1})`
+				sem[js] = map[string]interface{}{"t": "obj", "f": map[string]interface{}{
+					"a": map[string]interface{}{"t": "const", "v": "x"}, "b": map[string]interface{}{"t": "const", "v": 1.0}}}
+			default:
+				// ... and a getter that never returns is a script that never returns
+				js = `({get a() { var i = 0; while (true) { i = i + 1 } }, b: 1})`
+				sem[js] = map[string]interface{}{"t": "loop", "polls": true}
+			}
 		case 1:
 			js = `(`
 			sem[js] = map[string]interface{}{"t": "syntax"}
 		case 2:
-			js = `var i = 0; while (true) { i = i + 1 }`
+			// (the time-out is not a JavaScript exception: a script cannot catch it)
+			js = pick(r, `var i = 0; while (true) { i = i + 1 }`,
+				`var i = 0; try { while (true) { i = i + 1 } } catch (e) { i = -1 }; "caught"`,
+				`var i = 0; while (true) { try { while (true) { i = i + 1 } } catch (e) { i = 0 } }`,
+				`var i = 0; function w() { while (true) { i = i + 1 } }; for (;;) { try { w() } catch (e) { i = 0 } }`).(string)
 			sem[js] = map[string]interface{}{"t": "loop", "polls": true}
 		case 3:
 			js = `for (;;) {}`
